@@ -46,6 +46,15 @@ pub enum Stage {
     Diamond(Vec<Stage>, Vec<Stage>),
     /// Pass-through failing on its k-th call (C07 fault).
     Fail(u64),
+    /// Access-code correlator (bits -> bits).
+    Correlate(Vec<u8>, usize),
+    /// Tee -> (data, trigger = data * k) -> BurstTagger -> StreamToPdu ->
+    /// VecToStream: a packet round trip in the middle of a sample chain.
+    BurstRoundTrip(f32, f32, usize, usize),
+    /// Tee whose second output goes to an extra collector sink.
+    TapSink,
+    /// Two float branches merged into complex samples.
+    DiamondF2C(Vec<Stage>, Vec<Stage>),
 }
 
 #[derive(Clone, Debug)]
@@ -72,7 +81,7 @@ impl Recipe {
         json!({"source": format!("{:?} x {}{}", self.src_ty, self.src_len, if self.infinite {" (infinite)"} else {""}), "stages": self.stages.iter().map(|s| stage_name(s)).collect::<Vec<_>>(), "sink": format!("{:?}", self.sink)})
     }
     pub fn nblocks(&self) -> usize {
-        2 + self.stages.iter().map(|s| match s { Stage::Diamond(a, b) => 2 + a.len() + b.len(), _ => 1 }).sum::<usize>() + matches!(self.sink, SinkKind::Hdlc) as usize
+        2 + self.stages.iter().map(|s| match s { Stage::Diamond(a, b) | Stage::DiamondF2C(a, b) => 2 + a.len() + b.len(), Stage::BurstRoundTrip(..) => 5, Stage::TapSink => 2, _ => 1 }).sum::<usize>() + matches!(self.sink, SinkKind::Hdlc) as usize
     }
 }
 
@@ -83,6 +92,8 @@ fn stage_name(s: &Stage) -> String {
         Stage::FftFiltF(t) => format!("FftFiltF({} taps)", t.len()),
         Stage::FftFiltC(t) => format!("FftFiltC({} taps)", t.len()),
         Stage::Diamond(a, b) => format!("Diamond[{} | {}]", a.iter().map(stage_name).collect::<Vec<_>>().join(","), b.iter().map(stage_name).collect::<Vec<_>>().join(",")),
+        Stage::DiamondF2C(a, b) => format!("DiamondF2C[{} | {}]", a.iter().map(stage_name).collect::<Vec<_>>().join(","), b.iter().map(stage_name).collect::<Vec<_>>().join(",")),
+        Stage::Correlate(c, d) => format!("Correlate({} bits, {d} diffs)", c.len()),
         o => format!("{o:?}"),
     }
 }
@@ -108,7 +119,11 @@ fn gen_stage(src: &mut Src, ty: Ty, cap_bytes: usize, allow_diamond: bool) -> (S
                 4 if ty == Ty::U8 => (Stage::RtlDecode, Ty::C32),
                 4 => (Stage::Nrzi, ty),
                 5 if ty == Ty::Bits => (Stage::Descramble, ty),
-                6 if ty == Ty::Bits => (Stage::Nrzi, ty),
+                6 if ty == Ty::Bits => {
+                    let l = src.range(1, 9);
+                    let code: Vec<u8> = (0..l).map(|_| src.below(2) as u8).collect();
+                    (Stage::Correlate(code, src.below(3)), ty)
+                }
                 _ => {
                     let a = gen_branch(src, ty, cap_bytes);
                     let b = gen_branch(src, ty, cap_bytes);
@@ -116,7 +131,7 @@ fn gen_stage(src: &mut Src, ty: Ty, cap_bytes: usize, allow_diamond: bool) -> (S
                 }
             }
         }
-        Ty::F32 => match src.below(9 + allow_diamond as usize) {
+        Ty::F32 => match src.below(9 + 4 * allow_diamond as usize) {
             0 => (Stage::AddConstF((src.below(41) as f32 - 20.0) * 0.25), ty),
             1 => (Stage::MulConstF((src.below(41) as f32 - 20.0) * 0.125), ty),
             2 => (Stage::DelayS(src.below(cap(4) / 4)), ty),
@@ -126,11 +141,18 @@ fn gen_stage(src: &mut Src, ty: Ty, cap_bytes: usize, allow_diamond: bool) -> (S
             6 => (Stage::Slicer, Ty::Bits),
             7 => (Stage::FftFiltF(small_taps(src, 20)), ty),
             8 => (Stage::HilbertS(*src.pick(&[3usize, 7, 15])), Ty::C32),
-            _ => {
+            9 => {
                 let a = gen_branch(src, ty, cap_bytes);
                 let b = gen_branch(src, ty, cap_bytes);
                 (Stage::Diamond(a, b), ty)
             }
+            10 => {
+                let a = gen_branch(src, ty, cap_bytes);
+                let b = gen_branch(src, ty, cap_bytes);
+                (Stage::DiamondF2C(a, b), Ty::C32)
+            }
+            11 => (Stage::BurstRoundTrip(*src.pick(&[1.0f32, -1.0, 0.5]), *src.pick(&[0.0f32, 0.5, -0.5]), *src.pick(&[20usize, 200, 5000]), *src.pick(&[0usize, 1, 4])), ty),
+            _ => (Stage::TapSink, ty),
         },
         Ty::C32 => match src.below(6) {
             0 => (Stage::AddConstC((src.below(9) as f32 - 4.0) * 0.5, (src.below(9) as f32 - 4.0) * 0.5), ty),
@@ -188,7 +210,7 @@ pub fn gen_recipe(src: &mut Src, cap_bytes: usize, max_stages: usize) -> Recipe 
     let mut diamonds = 0;
     for _ in 0..ns {
         let (s, t) = gen_stage(src, ty, cap_bytes, diamonds == 0);
-        if matches!(s, Stage::Diamond(..)) {
+        if matches!(s, Stage::Diamond(..) | Stage::DiamondF2C(..) | Stage::BurstRoundTrip(..) | Stage::TapSink) {
             diamonds += 1;
         }
         stages.push(s);
@@ -223,6 +245,21 @@ pub enum SinkHandle {
     VsU8(rustradio::vector_sink::Hook<u8>),
     VsF32(rustradio::vector_sink::Hook<f32>),
     VsC32(rustradio::vector_sink::Hook<Complex>),
+}
+
+impl Built {
+    /// Contents of every sink (main sink first), with separators.
+    pub fn all_sink_bytes(&self) -> Vec<u8> {
+        let mut out = self.sink.bytes();
+        for s in &self.extra_sinks {
+            out.extend_from_slice(b"|SINK|");
+            out.extend(s.bytes());
+        }
+        out
+    }
+    pub fn all_sink_len(&self) -> usize {
+        self.sink.len() + self.extra_sinks.iter().map(|s| s.len()).sum::<usize>()
+    }
 }
 
 impl SinkHandle {
@@ -261,6 +298,8 @@ pub struct Built {
     /// In construction (topological) order, with names.
     pub blocks: Vec<Box<dyn Block + Send>>,
     pub sink: SinkHandle,
+    /// Additional sinks (TapSink stages), in stage order.
+    pub extra_sinks: Vec<SinkHandle>,
     pub fail_flags: Vec<Arc<std::sync::atomic::AtomicBool>>,
 }
 
@@ -274,6 +313,10 @@ fn source_data_f32(seed: u64, n: usize) -> Vec<f32> {
 }
 
 fn build_stage(s: &Stage, input: St, blocks: &mut Vec<Box<dyn Block + Send>>, fails: &mut Vec<Arc<std::sync::atomic::AtomicBool>>) -> St {
+    build_stage_x(s, input, blocks, fails, &mut Vec::new())
+}
+
+fn build_stage_x(s: &Stage, input: St, blocks: &mut Vec<Box<dyn Block + Send>>, fails: &mut Vec<Arc<std::sync::atomic::AtomicBool>>, extra: &mut Vec<SinkHandle>) -> St {
     macro_rules! push {
         ($b:expr, $o:expr, $v:ident) => {{
             blocks.push(Box::new($b));
@@ -371,6 +414,49 @@ fn build_stage(s: &Stage, input: St, blocks: &mut Vec<Box<dyn Block + Send>>, fa
             let (b, o) = FirFilterBuilder::new(&taps).deci(*d).build(r);
             push!(b, o, C32)
         }
+        (Stage::Correlate(code, d), St::U8(r)) => {
+            let (b, o) = CorrelateAccessCode::new(r, code.clone(), *d);
+            push!(b, o, U8)
+        }
+        (Stage::TapSink, St::F32(r)) => {
+            let (t, o1, o2) = Tee::new(r);
+            blocks.push(Box::new(t));
+            let (c, h) = Collector::new(o2);
+            blocks.push(Box::new(c));
+            extra.push(SinkHandle::F32(h));
+            St::F32(o1)
+        }
+        (Stage::BurstRoundTrip(k, th, max, tail), St::F32(r)) => {
+            let (t, data, b2) = Tee::new(r);
+            blocks.push(Box::new(t));
+            let (m, trig) = MultiplyConst::new(b2, *k);
+            blocks.push(Box::new(m));
+            let (bt, tagged) = BurstTagger::new(data, trig, *th, "burst");
+            blocks.push(Box::new(bt));
+            let (sp, pk) = StreamToPdu::new(tagged, "burst", *max, *tail);
+            blocks.push(Box::new(sp));
+            let (v, o) = VecToStream::new(pk);
+            push!(v, o, F32)
+        }
+        (Stage::DiamondF2C(a, b2), St::F32(r)) => {
+            let (t, o1, o2) = Tee::new(r);
+            blocks.push(Box::new(t));
+            let mut sa = St::F32(o1);
+            for s in a {
+                sa = build_stage(s, sa, blocks, fails);
+            }
+            let mut sb = St::F32(o2);
+            for s in b2 {
+                sb = build_stage(s, sb, blocks, fails);
+            }
+            match (sa, sb) {
+                (St::F32(x), St::F32(y)) => {
+                    let (m, o) = FloatToComplex::new(x, y);
+                    push!(m, o, C32)
+                }
+                _ => unreachable!("branch types"),
+            }
+        }
         (Stage::Fail(k), St::U8(r)) => {
             let (b, o, f) = FailAt::new(r, *k);
             fails.push(f);
@@ -467,8 +553,9 @@ pub fn build(recipe: &Recipe) -> Built {
             }
         }
     };
+    let mut extra_sinks = Vec::new();
     for s in &recipe.stages {
-        cur = build_stage(s, cur, &mut blocks, &mut fails);
+        cur = build_stage_x(s, cur, &mut blocks, &mut fails, &mut extra_sinks);
     }
     let sink = match (&recipe.sink, cur) {
         (SinkKind::Hdlc, St::U8(r)) => {
@@ -515,6 +602,7 @@ pub fn build(recipe: &Recipe) -> Built {
     Built {
         blocks,
         sink,
+        extra_sinks,
         fail_flags: fails,
     }
 }
@@ -535,7 +623,7 @@ pub fn reference_execute(recipe: &Recipe, big_bytes: usize) -> Result<Vec<u8>, S
         if passes > 200_000 {
             return Err("reference execution did not reach quiescence".into());
         }
-        let before = built.sink.len();
+        let before = built.all_sink_len();
         let mut again = false;
         for (i, b) in built.blocks.iter_mut().enumerate() {
             if eof[i] {
@@ -552,11 +640,11 @@ pub fn reference_execute(recipe: &Recipe, big_bytes: usize) -> Result<Vec<u8>, S
                 Err(e) => return Err(format!("reference execution: block {name} failed: {e}")),
             }
         }
-        if again || built.sink.len() != before {
+        if again || built.all_sink_len() != before {
             quiet = 0;
         } else {
             quiet += 1;
         }
     }
-    Ok(built.sink.bytes())
+    Ok(built.all_sink_bytes())
 }
